@@ -49,8 +49,12 @@ func TestVfC01Listeners(t *testing.T) {
 	defer up.Close()
 	pip := block + "10"
 	metricsAddr := pip + ":9153"
-	cfg := &Config{Servers: StdServers(pip, AllListenerKinds, ""), Upstreams: []UpstreamCfg{{Tag: "up", Addr: up.Addr()}}, Rules: []Rule{{Forward: "up"}},
-		Extra: map[string]any{"metrics": map[string]any{"addr": metricsAddr}}}
+	// query logging on and a regexp rule in front: every decodable query's name is also rendered as text
+	cfg := &Config{Servers: StdServers(pip, AllListenerKinds, ""), Upstreams: []UpstreamCfg{{Tag: "up", Addr: up.Addr()}},
+		DomainSets: []DomainSet{{Tag: "re", Files: []string{"$DIR/re.txt"}}},
+		Rules:      []Rule{{Domain: "re", Reject: 3}, {Forward: "up"}},
+		Log:        &LogCfg{Queries: true},
+		Extra:      map[string]any{"metrics": map[string]any{"addr": metricsAddr}}}
 	const c01Idle = 2 // seconds; the stream listeners must drop a client that stalls in the middle of a frame after this long
 	for i := range cfg.Servers {
 		switch cfg.Servers[i].Protocol {
@@ -64,7 +68,7 @@ func TestVfC01Listeners(t *testing.T) {
 		what string
 	}
 	var stalled []stalledConn
-	p, err := StartProxy(cfg.YAML(), nil, ProxyOpts{})
+	p, err := StartProxy(cfg.YAML(), map[string]string{"re.txt": "regexp:^no-such-name-[0-9]+\\.invalid$\n"}, ProxyOpts{})
 	if err != nil {
 		t.Fatal(err)
 	}
